@@ -50,7 +50,23 @@ def commentFreeP : List (PyVal × PyVal) → Bool
 end
 
 mutual
-/-- every dict key, at every level, is a comment-free value possibly wrapped by comment() / trailing_comment() at its top -/
+/-- a dict key whose comments sit where the sort key ignores them: around the key itself and, for a tuple key, around
+(or, again for tuples, inside) its elements -/
+def keyOk : PyVal → Bool
+  | .commented v _ => keyOk v
+  | .trailing v _ => keyOk v
+  | .seq kind _ xs => if kind == 1 then keyOkL xs else commentFreeL xs
+  | .frozenset _ xs => commentFreeL xs
+  | .dict _ kvs => commentFreeP kvs
+  | .call _ args kwargs => commentFreeL args && commentFreeK kwargs
+  | _ => true
+def keyOkL : List PyVal → Bool
+  | [] => true
+  | v :: r => keyOk v && keyOkL r
+end
+
+mutual
+/-- every dict key, at every level, carries comments only where the sort key ignores them (`keyOk`) -/
 def keysPlain : PyVal → Bool
   | .commented v _ => keysPlain v
   | .trailing v _ => keysPlain v
@@ -67,7 +83,7 @@ def keysPlainK : List (Str × PyVal) → Bool
   | (_, v) :: r => keysPlain v && keysPlainK r
 def keysPlainP : List (PyVal × PyVal) → Bool
   | [] => true
-  | (k, v) :: r => commentFree (stripComments k) && keysPlain v && keysPlainP r
+  | (k, v) :: r => keyOk k && keysPlain v && keysPlainP r
 end
 
 mutual
@@ -161,10 +177,78 @@ theorem hugCall_drop (args : List PyVal) (kwargs : List (Str × PyVal)) : hugCal
       | cons k kr => obtain ⟨k1, k2⟩ := k; rfl
       | nil => simp only [dropL, dropK, hugCall]; exact huggable_drop a
 
-/-! ### sorting looks at keys only through `stripComments` -/
+mutual
+theorem commentFree_keyOk : ∀ (v : PyVal), commentFree v = true → keyOk v = true
+  | .commented _ _, h => by simp [commentFree] at h
+  | .trailing _ _, h => by simp [commentFree] at h
+  | .seq kind c xs, h => by
+      simp only [commentFree] at h
+      simp only [keyOk]
+      split
+      · exact commentFreeL_keyOkL xs h
+      · exact h
+  | .frozenset _ _, h => by simpa [commentFree, keyOk] using h
+  | .dict _ _, h => by simpa [commentFree, keyOk] using h
+  | .call _ _ _, h => by simpa [commentFree, keyOk] using h
+  | .none, _ => rfl
+  | .ellipsis, _ => rfl
+  | .bool _, _ => rfl
+  | .opaque _, _ => rfl
+  | .ident _, _ => rfl
+  | .timedelta _ _ _, _ => rfl
+  | .path _ _, _ => rfl
+  | .int _ _ _, _ => rfl
+  | .float _ _ _ _ _, _ => rfl
+  | .str _ _ _, _ => rfl
+theorem commentFreeL_keyOkL : ∀ (xs : List PyVal), commentFreeL xs = true → keyOkL xs = true
+  | [], _ => rfl
+  | v :: r, h => by
+      simp only [commentFreeL, Bool.and_eq_true] at h
+      simp only [keyOkL, Bool.and_eq_true]
+      exact ⟨commentFree_keyOk v h.1, commentFreeL_keyOkL r h.2⟩
+end
+
+mutual
+/-- dropping `comment()` wrappers does not change what a key is ordered by -/
+theorem sortKey_drop : ∀ (v : PyVal), keyOk v = true → sortKey (dropComments v) = sortKey v
+  | .commented v t, h => by simp only [sortKey, dropComments]; exact sortKey_drop v (by simpa [keyOk] using h)
+  | .trailing v t, h => by simp only [sortKey, dropComments]; exact sortKey_drop v (by simpa [keyOk] using h)
+  | .seq kind c xs, h => by
+      simp only [keyOk] at h
+      simp only [dropComments, sortKey]
+      by_cases hk : (kind == 1) = true
+      · simp only [hk, if_true] at h ⊢
+        rw [sortKeyL_drop xs h]
+      · simp only [hk, Bool.false_eq_true, if_false] at h ⊢
+        rw [dropL_commentFree xs h]
+  | .frozenset c xs, h => by
+      simp only [keyOk] at h; simp only [dropComments, sortKey]; rw [dropL_commentFree xs h]
+  | .dict c kvs, h => by
+      simp only [keyOk] at h; simp only [dropComments, sortKey]; rw [dropP_commentFree kvs h]
+  | .call f a k, h => by
+      simp only [keyOk, Bool.and_eq_true] at h
+      simp only [dropComments, sortKey]; rw [dropL_commentFree a h.1, dropK_commentFree k h.2]
+  | .none, _ => rfl
+  | .ellipsis, _ => rfl
+  | .bool _, _ => rfl
+  | .opaque _, _ => rfl
+  | .ident _, _ => rfl
+  | .timedelta _ _ _, _ => rfl
+  | .path _ _, _ => rfl
+  | .int _ _ _, _ => rfl
+  | .float _ _ _ _ _, _ => rfl
+  | .str _ _ _, _ => rfl
+theorem sortKeyL_drop : ∀ (xs : List PyVal), keyOkL xs = true → sortKeyL (dropL xs) = sortKeyL xs
+  | [], _ => rfl
+  | v :: r, h => by
+      simp only [keyOkL, Bool.and_eq_true] at h
+      simp only [dropL, sortKeyL, sortKey_drop v h.1, sortKeyL_drop r h.2]
+end
+
+/-! ### sorting looks at keys only through `sortKey` -/
 
 theorem insertK_key {α} (g : PyVal → PyVal) (x : PyVal × α) (xs : List (PyVal × α))
-    (hx : stripComments (g x.1) = stripComments x.1) (hxs : ∀ p ∈ xs, stripComments (g p.1) = stripComments p.1) :
+    (hx : sortKey (g x.1) = sortKey x.1) (hxs : ∀ p ∈ xs, sortKey (g p.1) = sortKey p.1) :
     insertK (g x.1, x.2) (xs.map fun p => (g p.1, p.2)) = (insertK x xs).map fun p => (g p.1, p.2) := by
   induction xs with
   | nil => rfl
@@ -176,14 +260,14 @@ theorem insertK_key {α} (g : PyVal → PyVal) (x : PyVal × α) (xs : List (PyV
     · simp only [List.map_cons]
       rw [ih (fun p hp => hxs p (by simp [hp]))]
 
-theorem sortK_key {α} (g : PyVal → PyVal) (xs : List (PyVal × α)) (h : ∀ p ∈ xs, stripComments (g p.1) = stripComments p.1) :
+theorem sortK_key {α} (g : PyVal → PyVal) (xs : List (PyVal × α)) (h : ∀ p ∈ xs, sortKey (g p.1) = sortKey p.1) :
     sortK (xs.map fun p => (g p.1, p.2)) = (sortK xs).map fun p => (g p.1, p.2) := by
   unfold sortK
   rw [← List.map_reverse]
-  have hrev : ∀ p ∈ xs.reverse, stripComments (g p.1) = stripComments p.1 := fun p hp => h p (by simpa using hp)
+  have hrev : ∀ p ∈ xs.reverse, sortKey (g p.1) = sortKey p.1 := fun p hp => h p (by simpa using hp)
   generalize xs.reverse = ys at hrev
-  have key : ∀ (ys acc : List (PyVal × α)), (∀ p ∈ ys, stripComments (g p.1) = stripComments p.1) →
-      (∀ p ∈ acc, stripComments (g p.1) = stripComments p.1) →
+  have key : ∀ (ys acc : List (PyVal × α)), (∀ p ∈ ys, sortKey (g p.1) = sortKey p.1) →
+      (∀ p ∈ acc, sortKey (g p.1) = sortKey p.1) →
       (ys.map fun p => (g p.1, p.2)).foldl (fun acc x => insertK x acc) (acc.map fun p => (g p.1, p.2)) =
       (ys.foldl (fun acc x => insertK x acc) acc).map fun p => (g p.1, p.2) := by
     intro ys
@@ -233,9 +317,41 @@ theorem cfP : ∀ (xs : List (PyVal × PyVal)), commentFreeP xs = true → keysP
   | [], _ => rfl
   | (k, v) :: r, h => by
       simp only [commentFreeP, keysPlainP, Bool.and_eq_true] at *
-      refine ⟨⟨?_, commentFree_keysPlain v h.1.2⟩, cfP r h.2⟩
-      have : stripComments k = k := by cases k <;> first | rfl | (simp [commentFree] at h)
-      rw [this]; exact h.1.1
+      exact ⟨⟨commentFree_keyOk k h.1.1, commentFree_keysPlain v h.1.2⟩, cfP r h.2⟩
+end
+
+mutual
+/-- a key that is fit for sorting has only such keys inside -/
+theorem keyOk_keysPlain : ∀ (v : PyVal), keyOk v = true → keysPlain v = true
+  | .commented v _, h => by simp only [keyOk, keysPlain] at *; exact keyOk_keysPlain v h
+  | .trailing v _, h => by simp only [keyOk, keysPlain] at *; exact keyOk_keysPlain v h
+  | .seq kind _ xs, h => by
+      simp only [keyOk] at h
+      simp only [keysPlain]
+      by_cases hk : (kind == 1) = true
+      · simp only [hk, if_true] at h; exact keyOkL_keysPlainL xs h
+      · simp only [hk, Bool.false_eq_true, if_false] at h; exact cfL xs h
+  | .frozenset _ xs, h => by simp only [keyOk] at h; simp only [keysPlain]; exact cfL xs h
+  | .dict _ kvs, h => by simp only [keyOk] at h; simp only [keysPlain]; exact cfP kvs h
+  | .call _ a k, h => by
+      simp only [keyOk, Bool.and_eq_true] at h
+      simp only [keysPlain, Bool.and_eq_true]; exact ⟨cfL a h.1, cfK k h.2⟩
+  | .none, _ => rfl
+  | .ellipsis, _ => rfl
+  | .bool _, _ => rfl
+  | .opaque _, _ => rfl
+  | .ident _, _ => rfl
+  | .timedelta _ _ _, _ => rfl
+  | .path _ _, _ => rfl
+  | .int _ _ _, _ => rfl
+  | .float _ _ _ _ _, _ => rfl
+  | .str _ _ _, _ => rfl
+theorem keyOkL_keysPlainL : ∀ (xs : List PyVal), keyOkL xs = true → keysPlainL xs = true
+  | [], _ => rfl
+  | v :: r, h => by
+      simp only [keyOkL, Bool.and_eq_true] at h
+      simp only [keysPlainL, Bool.and_eq_true]
+      exact ⟨keyOk_keysPlain v h.1, keyOkL_keysPlainL r h.2⟩
 end
 
 theorem keysPlain_strip : ∀ (v : PyVal), keysPlain v = keysPlain (stripComments v)
@@ -374,7 +490,7 @@ theorem commentK_inert : (kws : List (Str × PyVal)) → (ctx : Ctx) → ctx.dep
 theorem commentP_inert : (kvs : List (PyVal × PyVal)) → (ctx : Ctx) → ctx.depthLeft = none →
     (ctx.sortKeys = false ∨ keysPlainP kvs = true) →
     canonPairs ctx (dropP kvs) = (canonPairs ctx kvs).map (fun p => (dropComments p.1, p.2)) ∧
-      (keysPlainP kvs = true → ∀ p ∈ canonPairs ctx kvs, stripComments (dropComments p.1) = stripComments p.1)
+      (keysPlainP kvs = true → ∀ p ∈ canonPairs ctx kvs, sortKey (dropComments p.1) = sortKey p.1)
   | [], _, _, _ => ⟨rfl, by simp [canonPairs]⟩
   | (k, v) :: r, ctx, hd, hk => by
       have hk' : (ctx.sortKeys = false ∨ keysPlain k = true) ∧ (ctx.sortKeys = false ∨ keysPlain v = true) ∧
@@ -382,7 +498,7 @@ theorem commentP_inert : (kvs : List (PyVal × PyVal)) → (ctx : Ctx) → ctx.d
         rcases hk with h | h
         · exact ⟨Or.inl h, Or.inl h, Or.inl h⟩
         · simp only [keysPlainP, Bool.and_eq_true] at h
-          exact ⟨Or.inr (by rw [keysPlain_strip]; exact commentFree_keysPlain _ h.1.1), Or.inr h.1.2, Or.inr h.2⟩
+          exact ⟨Or.inr (keyOk_keysPlain k h.1.1), Or.inr h.1.2, Or.inr h.2⟩
       have ik := comment_inert k ctx.nested none (nested_none hd) hk'.1
       have iv := comment_inert v ctx.nested none (nested_none hd) hk'.2.1
       obtain ⟨ir1, ir2⟩ := commentP_inert r ctx hd hk'.2.2
@@ -392,7 +508,7 @@ theorem commentP_inert : (kvs : List (PyVal × PyVal)) → (ctx : Ctx) → ctx.d
         simp only [keysPlainP, Bool.and_eq_true] at hp
         simp only [canonPairs, List.mem_cons] at hmem
         rcases hmem with rfl | hmem
-        · exact strip_drop k hp.1.1
+        · exact sortKey_drop k hp.1.1
         · exact ir2 hp.2 p hmem
 end
 
